@@ -193,5 +193,32 @@ func init() {
 			}
 		}
 		r.ExploreSpecs(specs)
+		r.ExploreSpecs(collMetaSpecs(r, []string{"sem", "struct", "order", "notrace", "reopen"}))
 	}})
+}
+
+// collMetaSpecs: collision groups inside maps whose root is an index slab: 5-6 keys, two or three of
+// them colliding on the first level (in the middle / at the start / at the end of the digest order),
+// element sizes at the limit so that leaves are nearly full when an external group collapses.
+func collMetaSpecs(r *Run, oracles []string) []Spec {
+	mk := func(name string, d map[string][4]uint64, keys int, classes []string) Spec {
+		return Spec{Name: name, Kind: "coll", T: 256, Keys: keys, Classes: classes, Oracles: oracles, Digests: d, Limit: 255, Extra: map[string]int{"limit": 1}}
+	}
+	mid := map[string][4]uint64{"0": {100, 1, 1, 1}, "1": {100, 2, 1, 1}, "2": {50, 1, 1, 1}, "3": {150, 1, 1, 1}, "4": {200, 1, 1, 1}, "5": {250, 1, 1, 1}}
+	first := map[string][4]uint64{"0": {10, 1, 1, 1}, "1": {10, 2, 1, 1}, "2": {50, 1, 1, 1}, "3": {150, 1, 1, 1}, "4": {200, 1, 1, 1}, "5": {250, 1, 1, 1}}
+	last := map[string][4]uint64{"0": {900, 1, 1, 1}, "1": {900, 2, 1, 1}, "2": {50, 1, 1, 1}, "3": {150, 1, 1, 1}, "4": {200, 1, 1, 1}, "5": {250, 1, 1, 1}}
+	triple := map[string][4]uint64{"0": {100, 1, 1, 1}, "1": {100, 2, 1, 1}, "2": {100, 2, 5, 1}, "3": {150, 1, 1, 1}, "4": {200, 1, 1, 1}, "5": {50, 1, 1, 1}}
+	specs := []Spec{
+		mk("coll-meta-mid", mid, 6, []string{"t", "limM"}),
+		mk("coll-meta-first", first, 5, []string{"t", "limM"}),
+		mk("coll-meta-last", last, 5, []string{"t", "limM"}),
+		mk("coll-meta-triple", triple, 6, []string{"t", "s60"}),
+	}
+	if r.Thorough() {
+		specs = append(specs,
+			mk("coll-meta-mid-3cls", mid, 6, []string{"t", "s60", "limM"}),
+			mk("coll-meta-triple-3cls", triple, 6, []string{"t", "s60", "limM"}),
+		)
+	}
+	return specs
 }
